@@ -474,6 +474,13 @@ class Interp:
             else:
                 st.obj = (self.WrappingHandle if st.wrap
                           else self.CountingHandle)(hid)
+            if spec.get('duck'):
+                # a handle that happens to have attributes named like a
+                # map's (a pack of levels with its own `maps`): a Handle
+                # it is, by its class
+                st.obj.maps = {}
+                st.obj.split_char = '/'
+                self.probes['handle_with_map_like_attributes'] += 1
             self.h[hid] = st
             return ('handle', st)
         mid = spec['id']
@@ -1153,6 +1160,8 @@ class GenState:
         elif val not in ('via', 'clearer', 'inner', 'selfh', 'fileworld',
                          'weakobj') and rng.random() < .1:
             spec['wrap'] = True
+        if val != 'fileworld' and rng.random() < .04:
+            spec['duck'] = True
         return spec
 
     def map_spec(self, depth, prefix):
